@@ -124,6 +124,11 @@ impl TermSegments {
         }
         // Cold path: reverse-scan historical segments.
         let count = self.seg_count.load(Ordering::Acquire);
+        if count > MAX_TERM_SEGMENTS {
+            // The archive overflowed: segments beyond the capacity were never stored, so the
+            // scan cannot know the term. Let entry_term() fall back to the SkipMap.
+            return None;
+        }
         (0..count).rev().find_map(|i| {
             let start = self.seg_starts[i].load(Ordering::Acquire);
             if start <= index {
